@@ -168,7 +168,7 @@ Proof.
   unfold texts_same in H.
   assert (forall u1 u2 (x1 x2 : str), u1 = x1 -> u2 = x2 ->
            (if str_eqb x1 x2 then true else match unquote x1, unquote x2 with Some a, Some b => str_eqb a b | _, _ => false end) = true ->
-           (if str_eqb u1 u2 then false else match unquote u1, unquote u2 with Some a, Some b => negb (str_eqb a b) | _, _ => true end) = false) as Hgen.
+           (if str_eqb u1 u2 then false else match unquote u1, unquote u2 with Some a, Some b => if str_eqb a b then false else negb (str_eqb a u1) || negb (str_eqb b u2) || negb (str_eqb (may_wrap u1) (may_wrap u2)) | _, _ => true end) = false) as Hgen.
   { intros u1 u2 x1 x2 -> ->. destruct (str_eqb x1 x2); [reflexivity|].
     destruct (unquote x1), (unquote x2); try discriminate. intros ->. reflexivity. }
   destruct d1, d2; exact (Hgen _ _ _ _ eq_refl eq_refl H).
